@@ -68,7 +68,8 @@ theorem catVal_bits (ρ : Val) (g : Nat → Bool) :
     by_cases hj : j < 1
     · have : j = 0 := by omega
       subst this
-      simp [testBit_b2n]
+      simp
+      cases g k <;> simp [b2n]
     · rw [if_neg hj]
       have := ih (k + 1) (by
         intro i hi
@@ -166,6 +167,55 @@ theorem compose_bits_sem (bits : List Expr) (sf : Bool) (g : Nat → Bool) (V : 
   split
   · exact ⟨(Plain_setSf _ _).mpr this.1, by rw [ideal_setSf]; exact hval⟩
   · exact ⟨this.1, hval⟩
+
+/-- the `bitslice` rule for `& | ^` with a constant: bit `i` of the result list is bit `i` of the meaning -/
+theorem bitslice_logic_bits (o : Op) (ho : o = Op.and ∨ o = Op.or ∨ o = Op.xor) (l : Expr) (rv rs : Nat) (rf : Bool)
+    (size w : Nat) (hl : WF l) (hq : Plain l) (hr : WF (.cst rv rs rf)) (bits : List Expr)
+    (h : (pyRange 0 size).mapM (fun i => do
+            let a ← getitem cfg fuel l i (i + 1)
+            let b ← getitem cfg fuel (.cst rv rs rf) i (i + 1)
+            callOp cfg fuel o a b) = .ok bits) :
+    bits.length = size ∧ BitsOK ρ (fun i => (binSem o false w (ideal ρ l) rv).testBit i) bits := by
+  have wih := widthIH_all cfg fuel
+  obtain ⟨h1, h2⟩ := mapM_get _ _ _ h
+  have hlen : bits.length = size := by rw [h1, length_pyRange]; simp
+  refine ⟨hlen, ?_⟩
+  intro i hi
+  have := h2 i (by rw [← h1]; exact hi) hi
+  rw [getElem_pyRange] at this
+  simp only [Int.zero_add] at this
+  cases ha : getitem cfg fuel l (i : Int) ((i : Int) + 1) with
+  | error e => rw [ha] at this; cases this
+  | ok a =>
+    rw [ha] at this
+    simp only [bind, Except.bind] at this
+    cases hbb : getitem cfg fuel (cst rv rs rf) (i : Int) ((i : Int) + 1) with
+    | error e => rw [hbb] at this; cases this
+    | ok b =>
+      rw [hbb] at this
+      simp only at this
+      have w1 := wih.getitem l _ _ hl a ha
+      have w2 := wih.getitem _ _ _ hr b hbb
+      have v1 := ih.getitem l _ _ hl hq a ha
+      have v2 := ih.getitem _ _ _ hr (by simp [Plain]) b hbb
+      have hag : agnOp o = true := by rcases ho with rfl | rfl | rfl <;> rfl
+      have s1 : a.size = 1 := by rw [w1.2]; omega
+      have s2 : b.size = 1 := by rw [w2.2]; omega
+      have w3 := wih.callOp o a b w1.1 w2.1 (by intro _; rw [s1, s2]) _ this
+      have v3 := ih.callOp o a b w1.1 w2.1 v1.1 v2.1 hag (by intro _; rw [s1, s2]) _ this
+      refine ⟨w3.1, v3.1, ?_, ?_⟩
+      · rw [w3.2]
+        rcases ho with rfl | rfl | rfl <;> simp [resSize, Op.type, s1]
+      · rw [v3.2, v1.2, v2.2, ideal_lt_of_WF_cst hr, s1]
+        have e1 : (i : Int).toNat = i := by omega
+        have e2 : ((i : Int) + 1).toNat - i = 1 := by omega
+        rw [e1, e2]
+        show _ = b2n ((binSem o false w (ideal ρ l) rv).testBit i)
+        rw [← bitsOf_one]
+        rcases ho with rfl | rfl | rfl <;> simp only [binSem]
+        · exact (and_bit _ _ _).symm
+        · exact (or_bit _ _ _).symm
+        · exact (xor_bit _ _ _).symm
 
 end steps
 end Amoco
